@@ -225,7 +225,7 @@ Qed.
 (* C09: URI round trip with naming-convention shorthands; numbers must be canonically encoded *)
 Theorem comp_uri_roundtrip t v :
   valid_type t -> wf_bytes v -> N.of_nat (length v) < two64 ->
-  (is_alt_type t = true -> exists m, m < two64 /\ v = nni_enc m) ->
+  (is_alt_type t = true -> nni_len_ok (length v) = true -> exists m, m < two64 /\ v = nni_enc m) ->
   (do u <- comp_to_str (comp_enc t v) ;; comp_from_str u) = Ok (comp_enc t v).
 Proof.
   intros Ht Hv Hl Hcanon. unfold comp_to_str.
@@ -243,7 +243,8 @@ Proof.
     change (str_eqb s_params_sha256 s_params_sha256) with true. cbv iota.
     rewrite hex_parse_print by exact Hv. cbn [of_opt bind]. apply (comp_from_bytes_ok v 2). exact Ht. }
   pose proof (alt_by_type_spec t) as A. destruct (alt_by_type alt_uri t) as [k|].
-  - destruct A as (Ha & Hk & K1 & K2 & K3). destruct (Hcanon Ha) as (m & Hm & ->). cbn [bind].
+  - destruct (nni_len_ok (length v)) eqn:EL; [|cbn [bind]; apply comp_from_str_uri_body; assumption].
+    destruct A as (Ha & Hk & K1 & K2 & K3). destruct (Hcanon Ha eq_refl) as (m & Hm & ->). cbn [bind].
     destruct (dec_print_spec (be_to_N (nni_enc m))) as (Hne & Hd & _).
     rewrite comp_from_str_typed by (exact Hk || (apply digits_okc; exact Hd)).
     unfold comp_from_typed. rewrite K1, K2, K3. rewrite py_int_dec_print. cbn [of_opt bind].
